@@ -48,6 +48,19 @@ CHECKS["C15"] = ("DESIGN §4 C15",
     "all operation histories up to the depth bound are executed on the real simulations (in-memory and on-disk iterations); the oracle is a list of snapshots taken through public getters at save time",
     "trusted: deep copies taken by the harness; exact equality for stored entries, 1e-12 for restored fields; scratch folders under mkdtemp")
 
+CHECKS["C08"] = ("DESIGN §4 C08",
+    "explicit-state exploration of all rigid-motion histories of length <= 2 (quick) / 3 (thorough) over {translate, rotate 90, rotate generic, reflect} applied with the library's own Mesh.Translate/Rotate/Symmetry on 81 (domain, element type) pairs, invariants after every operation; exhaustive enumeration of point-location queries (reference lattice of every element x batch sizes x placements x monomial fields)",
+    "every motion history up to the bound and every lattice query is executed on the real meshes; oracles: own numpy motion, shoelace/divergence-theorem measures, outward normals rebuilt from vertices and adjacency, exact monomial values",
+    "trusted: numpy; MeshZoo closed-form geometry; tolerance 1e-9 (1e-6 where the library inverts the element map with least_squares)")
+CHECKS["C10"] = ("DESIGN §4 C10",
+    "exhaustive enumeration of (problem, dimension, element type, material, load, rigid motion) configurations; each transformed problem built up to three ways (library motion of a mesh copy, transformed coordinates, live simulation moved after a solve) and compared with the transformed solution of the original",
+    "every configuration of the stated alphabets (incl. the special angles 90/180 degrees and generic seeded ones, reflections) is solved by the real code; covariance of u, K, M, stresses and energies, plus closed-form cantilevers in the member's own axes",
+    "trusted: numpy rotations; closed-form beam formulas; tolerance 1e-8")
+CHECKS["C13"] = ("DESIGN §4 C13",
+    "exhaustive enumeration of weak-form programs over a grammar (terms M, G, A, Mv, L, Gs, E, V, FV with constant / per-element / coordinate-function coefficients; all single terms on all element types, all pairs on low-order types) x matrix type x mesh; compared with the built-in operators, with a dense scatter-add for Assemble, and with the dedicated Thermal/Elastic simulations for static, parabolic and Newmark steps",
+    "every program of the bounded grammar is integrated by the real Field/Form machinery and compared entry-wise with the built-in operator combination",
+    "trusted: the built-in operators as reference for symmetric forms (C01/C02/C07 check them independently); own Kelvin-Mandel conversion; tolerance 1e-12")
+
 PENDING_REASON = "not claimed yet: the bounded-exhaustive check for this property is designed (DESIGN.md §4) but not built in the committed tree"
 
 
